@@ -15,6 +15,9 @@ CHECKS = {
          "All ordered pairs over a boundary pool x 23 binary operators + unary ! - ~ (complete in both tiers) and seeded random operands; exact value+type on the documented domain, ==/!=/===/!==/<=> coherence laws and no-crash on every pair, eight truthiness contexts per value.",
          "Exact results only on the documented domain (see evidence assumptions); overflow, float %, float ** and negative shifts are not asserted beyond 'value or catchable error'."),
 }
+CHECKS["C04"] = ("metamorphic testing: minimal vs full vs redundant parenthesisation of generated typed expression trees (exhaustive operator pairs + rapid trees, subtree-to-leaf reduction)",
+         "Every ordered pair of binary operators in both tree shapes, unary/cast/ternary/assignment against every binary operator, negative literals in both spellings (complete), plus rapid-drawn well-typed trees to depth 5; the three printings of a tree must evaluate to the same value, type and final variable state.",
+         "Metamorphic oracle only (no external value); '.' is mixed bare only where the statement fixes its position; non-triviality decided by an independent Go evaluator.")
 NOT_YET = {
 }
 
